@@ -2188,6 +2188,13 @@ func (self *Aof) GetLockCommandExpriedTime(lockDb *LockDB, aofLock *AofLock) uin
 		return aofLock.ExpriedTime
 	}
 	if aofLock.ExpriedFlag&protocol.EXPRIED_FLAG_MILLISECOND_TIME != 0 {
+		expriedTimeMilliseconds := (lockDb.currentTime - int64(aofLock.CommandTime)) * 1000
+		if expriedTimeMilliseconds > 0 {
+			if int64(aofLock.ExpriedTime) > expriedTimeMilliseconds {
+				return aofLock.ExpriedTime - uint16(expriedTimeMilliseconds)
+			}
+			return 0
+		}
 		return aofLock.ExpriedTime
 	}
 	if aofLock.ExpriedFlag&protocol.EXPRIED_FLAG_MINUTE_TIME != 0 {
